@@ -12,7 +12,8 @@ RULE = ("A case is (protocol version, up to 8 full requested states applied in s
         "at their fixed values, and bodies of distinct states in a run must differ). Parts: 'setpoint_x_mode' = all 62 "
         "half-degree set-points x 6 modes; 'fan_bytes' = all 128; 'flag_combos' = all 192 combinations of turbo, "
         "follow-me, eco, purifier, aux mode, sleep, Fahrenheit; 'humidity' = 0..127; 'small_fields' = swing x freeze x "
-        "power x beep; 'random' = seeded full states. Distinct = distinct requested state tuple; non-trivial = every "
+        "power x beep; 'random' = seeded full states, also applied while a refresh is in flight, after a refresh of a "
+        "reported state, and after a random capability report has been learned. Distinct = distinct requested state tuple; non-trivial = every "
         "case (each compares a full state).")
 ASSUMPTIONS = [
     "vendor layout as transcribed in refmodel/acmodel.decode_control (Lua jsonToData lines 3286-3445); alternate "
@@ -56,6 +57,13 @@ def run(plan):
             if o.kind != "ok":
                 res.fail(f"genuine handshake raised {o.exc_type}", repr(o.exc))
                 return
+        if plan.get("learn_caps"):
+            # the capability report is learned first; apply() must still encode what was requested
+            o = await s.do({"op": "caps"})
+            if o.kind != "ok":
+                res.fail(f"get_capabilities raised {o.exc_type}", repr(o.exc))
+                return
+            w.fire("capabilities_learned_before_apply")
         bodies = {}
         mode = plan.get("mode", "plain")
         for st in states:
@@ -83,6 +91,10 @@ def run(plan):
                     if k not in keep:
                         full[k] = st[k]
                 st = full
+                if plan.get("learn_caps") and "fan_speed" in keep:
+                    # a profile without custom fan speeds shows a reported in-between speed as a named one (C11's
+                    # business); what the user keeps, and therefore requests, is the speed the object shows
+                    st["fan_speed"] = int(ac.fan_speed)
                 for k in FIELDS:
                     if k == "beep":
                         ac.beep = st[k]
@@ -158,7 +170,7 @@ def run(plan):
     except (SimDeadlock, SimStepLimit) as e:
         res.fail(f"liveness: {type(e).__name__}", str(e))
     res.take(w)
-    res.key = (plan.get("mode"), plan.get("turbo_report"), bool(plan.get("int_values")), tuple(tuple(sorted(st.items())) for st in states))
+    res.key = (plan.get("mode"), plan.get("turbo_report"), bool(plan.get("int_values")), repr(plan["config"].get("caps_pages")), tuple(tuple(sorted(st.items())) for st in states))
     res.nontrivial = True
     return res
 
@@ -228,6 +240,13 @@ def space(tier):
             p["turbo_report"] = rng.choice(["both", "b8", "b10"])
             for st in p["states"]:
                 st["target_humidity"] = min(st["target_humidity"], 100)
+        if rng.random() < 0.4:
+            from .c15 import rand_record
+            recs = [rand_record(rng) for _ in range(rng.randint(1, 10))]
+            if rng.random() < 0.5:
+                recs.append([0x0210, rng.choice(["00", "01", "05", "06", "07"])])      # fan-speed profile
+            p["config"] = dict(p["config"], caps_pages=[[recs, None]])
+            p["learn_caps"] = True
         return p
     sp.add("random", 3000 if tier == "quick" else 600_000, f_rand)
     return sp
